@@ -123,8 +123,8 @@ impl LeapTable {
     /// loads both files, checks the three-way agreement (a mismatch is a machinery error: the oracle's
     /// own inputs changed, which must be reported rather than silently moving the oracle)
     pub fn load() -> Result<(Self, [f64; 5]), String> {
-        let a = parse_iers_list("/repo/data/leap-seconds.list")?;
-        let (b, consts) = parse_naif("/repo/naif0012.txt")?;
+        let a = parse_iers_list(&format!("{}/data/leap-seconds.list", crate::report::repo()))?;
+        let (b, consts) = parse_naif(&format!("{}/naif0012.txt", crate::report::repo()))?;
         if a != DIGEST {
             return Err("data/leap-seconds.list differs from the digest of the 28 IERS entries compiled into the harness".into());
         }
